@@ -623,14 +623,20 @@ def concurrent_specs(ctx, n):
     out = []
     # context-level writers (annotation_writers_serializable / log_writers_serializable): every fourth run lets the
     # two processes write the annotations file (different names / the same name) or the log at the same time
+    # (context_annotation_writers_serializable: both processes store a model into the SAME subcontext: its links and
+    # its own annotations file)
     ctxw = [([['annot', 'na', 'text a']], [['annot', 'nb', 'text b']]),
+            ([['substore', 'search', 'P']], [['substore', 'search', 'D']]),
             ([['log', 'info', 'message a', None]], [['log', 'warning', 'message, "b"', None]]),
+            ([['substore', 'search', 'I']], [['substore', 'search', 'T']]),
             ([['annot', 'n', 'text a']], [['annot', 'n', 'text b']])]      # one file per run: the order of the log lines
     #                                                                          and that of the annotations are independent
     for k in range(n):
         if k % 4 == 3:
             wa, wb = ctxw[(k // 4) % len(ctxw)]
-            out.append({'models': models, 'pre': [['init'], ['annot', 'old', 'kept']], 'a': [['init']] + wa, 'b': [['init']] + wb,
+            pre_db = [['dbstore', x[0][2]] for x in (wa, wb) if x[0][0] == 'substore'] if (k // 4) % 2 else []
+            out.append({'models': models, 'pre': [['init'], ['annot', 'old', 'kept'], ['subinit', 'search']] + pre_db,
+                        'a': [['init']] + wa, 'b': [['init']] + wb,
                         'seed': ctx.rng.randrange(10 ** 6)})
             continue
         a, b = [('P', 'I'), ('P', 'D'), ('I', 'D'), ('D', 'T')][k % 4 if k % 8 < 4 else 3]
